@@ -64,6 +64,12 @@ def short(st):
 
 def explore(lib, track_x=None, x0=0):
     it = Interp(lib, track_x=track_x)
+
+    def norm(st):
+        return (st[0], st[1], x0)
+
+    def good(st):
+        return st[0] in GOOD_BOUNDARY and st[1] == 0
     apis = api_functions(lib)
     guard_fns = []
     try:
@@ -90,8 +96,10 @@ def explore(lib, track_x=None, x0=0):
                             if st2 not in guard_states:
                                 guard_states.add(st2)
                                 changed = True
-                        elif st2 not in B:
-                            B.add(st2)
+                        elif norm(st2) not in B and good(st2):
+                            # a bad boundary state is reported where it arises; exploring on
+                            # from it would only cascade
+                            B.add(norm(st2))
                             changed = True
             # while the core guard lives only extract_core may run; then it is dropped
             for g in sorted(guard_states, key=str):
@@ -108,14 +116,14 @@ def explore(lib, track_x=None, x0=0):
                 for h in held:
                     if drop_fn is None:
                         trans.append(("drop(UnsatisfiableUnderAssumptions) [no Drop impl]", h, h, None))
-                        if h not in B:
-                            B.add(h)
+                        if norm(h) not in B and good(h):
+                            B.add(norm(h))
                             changed = True
                     else:
                         for (st2, rt) in it.summary(drop_fn, h, ()):
                             trans.append(("drop(UnsatisfiableUnderAssumptions)", h, st2, rt))
-                            if st2 not in B:
-                                B.add(st2)
+                            if norm(st2) not in B and good(st2):
+                                B.add(norm(st2))
                                 changed = True
         return B, trans, guard_states
     B, trans, guards = it.fixpoint(thunk)
